@@ -44,31 +44,39 @@ def effective_params(algo, P):
     return Q
 
 
+def _rel(name, *terms):
+    """a relation `sum(terms) = 0`: (name, residual vector, scale = largest term magnitude).  The scale is that of
+    the relation's own terms, so the judgement is invariant under scaling the whole problem (no absolute floor)."""
+    res = [sum(t) for t in zip(*terms)]
+    sc = max((abs(float(x)) for t in terms for x in t), default=0.0)
+    return (name, res, sc)
+
+
 def update_residuals(algo, P, prev, new):
-    """list of (name, residual vector) that the documented update relations require to vanish."""
+    """list of (name, residual vector, scale) that the documented update relations require to vanish."""
     P = effective_params(algo, P)
     dt = P["dt"]
     u0, v0, a0 = prev["u"], prev["v"], prev["a"]
     u1, v1, a1 = new["u"], new["v"], new["a"]
+    m = lambda c, v: [c * x for x in v]
     out = []
     if algo in ("newmark", "hht", "hht_newmark"):
         be, ga = P["beta"], P["gamma"]
-        pred = _z(lambda u, v, a: u + dt * v + dt * dt / 2 * (1 - 2 * be) * a, u0, v0, a0)
-        out.append(("a1 = (u1 - pred)/(beta dt^2)", _z(lambda a, u, p: a * (be * dt * dt) - (u - p), a1, u1, pred)))
-        out.append(("v1 = v0 + dt((1-gamma) a0 + gamma a1)", _z(lambda v, w, a, b: v - (w + dt * ((1 - ga) * a + ga * b)), v1, v0, a0, a1)))
+        out.append(_rel("a1 = (u1 - pred)/(beta dt^2)", m(be * dt * dt, a1), m(-1, u1), u0, m(dt, v0), m(dt * dt / 2 * (1 - 2 * be), a0)))
+        out.append(_rel("v1 = v0 + dt((1-gamma) a0 + gamma a1)", v1, m(-1, v0), m(-dt * (1 - ga), a0), m(-dt * ga, a1)))
     elif algo == "midpoint":
-        out.append(("v1 = 2/dt (u1-u0) - v0", _z(lambda v, u, p, w: v * dt - (2 * (u - p) - dt * w), v1, u1, u0, v0)))
-        out.append(("a1 = 2/dt (v1-v0) - a0", _z(lambda a, v, w, b: a * dt - (2 * (v - w) - dt * b), a1, v1, v0, a0)))
+        out.append(_rel("v1 = 2/dt (u1-u0) - v0", m(dt, v1), m(-2, u1), m(2, u0), m(dt, v0)))
+        out.append(_rel("a1 = 2/dt (v1-v0) - a0", m(dt, a1), m(-2, v1), m(2, v0), m(dt, a0)))
     elif algo == "euler_implicit":
-        out.append(("v1 = (u1-u0)/dt", _z(lambda v, u, p: v * dt - (u - p), v1, u1, u0)))
-        out.append(("a1 = (v1-v0)/dt", _z(lambda a, v, w: a * dt - (v - w), a1, v1, v0)))
+        out.append(_rel("v1 = (u1-u0)/dt", m(dt, v1), m(-1, u1), u0))
+        out.append(_rel("a1 = (v1-v0)/dt", m(dt, a1), m(-1, v1), v0))
     elif algo == "euler_explicit":
-        out.append(("u1 = u0 + dt v0", _z(lambda u, p, w: u - (p + dt * w), u1, u0, v0)))
-        out.append(("v1 = v0 + dt a^n", _z(lambda v, w, a: v - (w + dt * a), v1, v0, a1)))
+        out.append(_rel("u1 = u0 + dt v0", u1, m(-1, u0), m(-dt, v0)))
+        out.append(_rel("v1 = v0 + dt a^n", v1, m(-1, v0), m(-dt, a1)))
     elif algo == "parabolic":
         al = P["alpha"]
-        out.append(("u1 = u0 + dt((1-alpha) v0 + alpha v1)", _z(lambda u, p, w, v: u - (p + dt * ((1 - al) * w + al * v)), u1, u0, v0, v1)))
-        out.append(("a unchanged (no acceleration for parabolic)", _z(lambda a, b: a - b, a1, a0)))
+        out.append(_rel("u1 = u0 + dt((1-alpha) v0 + alpha v1)", u1, m(-1, u0), m(-dt * (1 - al), v0), m(-dt * al, v1)))
+        out.append(_rel("a unchanged (no acceleration for parabolic)", a1, m(-1, a0)))
     else:
         raise KeyError(algo)
     return out
@@ -84,7 +92,9 @@ def eom_residual(algo, P, K, C, M, load, prev, new):
 
 
 def scale(*vs):
-    m = 1.0
+    """largest magnitude among the given vectors -- NO absolute floor: a tolerance `tol * scale(...)` is relative to the
+    problem's own size, so tiny (1e-18) and huge (1e15) states are judged like O(1) ones."""
+    m = 0.0
     for v in vs:
         for x in v:
             m = max(m, abs(float(x)))
